@@ -46,7 +46,7 @@ def main(argv):
     t0 = time.time()
     res = {"prop": prop, "shard": shard, "cases": 0, "evaluations": 0, "nontrivial": [], "violations": [],
            "samples": [], "counters": {}, "side_alarms": [], "errors": [], "stopped_early": False,
-           "fp_warnings": 0}
+           "mech_hits": {}}
     nontrivial = set()
     indices = [only] if only is not None else range(shard, total, nshards)
     np.seterr(all="ignore")
@@ -70,7 +70,10 @@ def main(argv):
         if len(res["samples"]) < 2 and ctx.samples:
             res["samples"].append(ctx.samples[0])
         for v in ctx.violations:
-            if len(res["violations"]) < 40:
+            if v.get("mech"):
+                h = res["mech_hits"].setdefault(v["mech"], {"n": 0, "example": v})
+                h["n"] += 1
+            elif len(res["violations"]) < 40:
                 res["violations"].append(v)
             else:
                 res["counters"]["violations_truncated"] = res["counters"].get("violations_truncated", 0) + 1
@@ -78,8 +81,12 @@ def main(argv):
             a["index"] = index
             if a["property"] == prop:
                 mech = mod.classify_alarm(a) if hasattr(mod, "classify_alarm") else None
-                res["violations"].append({"what": "always-on contract: " + a["what"], "witness": a, "mech": mech,
-                                          "index": index})
+                v = {"what": "always-on contract: " + a["what"], "witness": a, "mech": mech, "index": index}
+                if mech:
+                    h = res["mech_hits"].setdefault(mech, {"n": 0, "example": v})
+                    h["n"] += 1
+                else:
+                    res["violations"].append(v)
             elif len(res["side_alarms"]) < 20:
                 res["side_alarms"].append(a)
     res["nontrivial"] = sorted(nontrivial)
